@@ -11,6 +11,10 @@ claim('C01',
       'Every cell is an exhaustive symbolic exploration of the real constructor code: for every tag string up to the bound, on every node kind, in 12 placement contexts, through the four safe/base classes and the three safe API entry points, z3 decides each branch and the path tree is closed (CONFIRMED over all paths) or a concrete counterexample is replayed. Bounded model checking is the right level: the dispatch code distinguishes finitely many classes of tags, so the bounded claim covers every class.',
       'Python halves only (text->node for the C loaders is libyaml: outside). Trusted: CrossHair/z3, models M1/M3/M8/M9 (differentially self-tested on each run), nodes built directly. Known findings K1-K3, K5 listed in known_findings.json.')
 
+claim('C04',
+      'Exhaustive symbolic exploration of the real FullConstructor dispatch and python/name lookup: every tag up to the bound on every node kind through FullLoader and CFullLoader (Python half), 12 placement contexts, the three full_load entry points, every python/name: suffix up to the bound against a 3-module stand-in for sys.modules, and the four object-construction prefixes with arbitrary suffixes. Import, call and instantiation are observed by recorders inside the explored paths, so the verdict covers every input class in the bound rather than sampled documents.',
+      'Python halves only. Trusted: CrossHair/z3, M1/M1b placeholders for error messages, M7 (hasattr/getattr on the stand-in modules), the stand-in for yaml.constructor.sys and __import__. Known finding K5 (merge-source tag ignored).')
+
 NA = {
  'C06': 'every comparison is between two artefacts of libyaml (a compiled system .so behind a Cython binding that cannot be rebuilt offline); symbolic values are realised at the extension boundary, so no solver variable survives into the code under comparison',
  'C20': 'asymptotic growth over input sizes: bounded symbolic execution cannot observe doubling and an unbounded cost argument is proof-assistant work; the anchored look-ahead mechanisms are decided as one-step invariants under C09/C18',
